@@ -49,13 +49,18 @@ def scalars():
     )
 
 
-OPS = ["mulG", "add", "mulP", "add_int", "distrib", "assoc_mul", "order", "inverse", "double"]
+OPS = ["mulG", "add", "mulP", "add_int", "distrib", "assoc_mul", "order", "inverse", "double", "combine"]
+# S256Point.combine(points) is a chain of additions; each further term is described relative to the
+# running sum (the cases a specialised summation is most likely to get wrong)
+TERM_RELS = ["indep", "equal_to_sum", "opposite_of_sum", "infinity", "equal_to_previous", "small"]
 
 
 def diff_strategy(tier):
     return st.fixed_dictionaries(
         {"op": st.sampled_from(OPS), "a": scalars(), "b": scalars(),
-         "rel": st.sampled_from(["indep", "equal", "opposite", "inf_left", "inf_right", "both_inf"])}
+         "rel": st.sampled_from(["indep", "equal", "opposite", "inf_left", "inf_right", "both_inf"]),
+         "terms": st.lists(st.tuples(st.sampled_from(TERM_RELS), gen.uniform_int(1, N - 1)),
+                           min_size=0, max_size=4)}
     )
 
 
@@ -114,6 +119,27 @@ def check_diff(case, ctx):
         A = ec.mul(a)
         same(pt(A) + pt(A), co(2 * pt(A)), "double")
         same(pt(A) + pt(A), ec.mul(2 * a), "double_ref")
+    elif op == "combine":
+        pts = [ec.mul(a)]
+        acc = pts[0]
+        for trel, k in case.get("terms", []):
+            if trel == "indep":
+                q = ec.mul(k)
+            elif trel == "equal_to_sum":
+                q = acc
+            elif trel == "opposite_of_sum":
+                q = ec.neg(acc) if acc is not None else None
+            elif trel == "infinity":
+                q = None
+            elif trel == "equal_to_previous":
+                q = pts[-1]
+            else:
+                q = ec.mul(k % 5 + 1)
+            ctx.label("combine_term:" + trel)
+            pts.append(q)
+            acc = ec.add(acc, q)
+        ctx.label(f"combine_len:{len(pts)}")
+        same(S256Point.combine([pt(q) for q in pts]), acc, "combine")
 
 
 # ---------------------------------------------------------------- object reuse
